@@ -318,7 +318,7 @@ def C15(tier, seed):
     # construction) -> one symbolic step on the original or on the copy (symbolic choice): the driven machine behaves like the
     # reference from the copied configuration, the other machine keeps its configuration and its pending events
     if tier == 'thorough':
-        cp = {0: [0, 1], 2: [0, 1], 3: [0, 1, 2, 3], 4: [0, 1, 2, 3]}; bes = [0, 2, 3]; progs = ['H2', 'HIa', 'X']; mc = 16
+        cp = {0: [0, 1], 2: [0, 1], 3: [0, 1, 2, 3], 4: [0, 1, 2, 3]}; bes = [0, 2, 3]; progs = ['H2', 'HIa', 'X']; mc = 12
     else:
         cp = {0: [0, 1], 3: [0, 2]}; bes = [0, 3]; progs = ['H2']; mc = 8
     cpq = {0: [1], 3: [1]} if tier != 'thorough' else {0: [0, 1], 2: [0, 1], 3: [0, 1, 2, 3]}
@@ -337,7 +337,7 @@ def C15(tier, seed):
     def hflt(c):
         if not c.started or c.m[c.prog.root.name]['active'][0] != 'A': return False
         nh[id(c.prog)] = nh.get(id(c.prog), 0) + 1
-        return nh[id(c.prog)] <= (16 if tier == 'thorough' else 8)
+        return nh[id(c.prog)] <= (12 if tier == 'thorough' else 8)
     oracle_units(chk, ['HIs', 'HIa'] if tier == 'thorough' else ['HIs'], [0] + ([2, 3] if tier == 'thorough' else []), 'C15', proj=STD,
                  copy_modes=[0, 1], opts={'second': True}, bfs_depth=8, max_confs=400, conf_filter=hflt, timeout=90, strats=['nk', 'nkG'],
                  prog_mod=lambda prog: setattr(prog, 'name', prog.name + '_exited'))
